@@ -11,6 +11,7 @@ import DpapiNg.Drv.Dns
 import DpapiNg.Drv.SecDesc
 import DpapiNg.Drv.Gkdi
 import DpapiNg.Drv.Client
+import DpapiNg.Drv.Rpc
 open DpapiNg DpapiNg.Drv
 
 def dispatch (toks : List String) : String :=
@@ -57,7 +58,7 @@ def dispatch (toks : List String) : String :=
     | some b, some e, some m => s!"ok {Py.powMod b e m}"
     | _, _, _ => "bad-op"
   | _ =>
-    match (dispatchAsn1 toks <|> dispatchDns toks <|> dispatchSecDesc toks <|> dispatchGkdi toks <|> dispatchClient toks) with
+    match (dispatchAsn1 toks <|> dispatchDns toks <|> dispatchSecDesc toks <|> dispatchGkdi toks <|> dispatchClient toks <|> dispatchRpc toks) with
     | some r => r
     | none => "bad-op"
 
